@@ -28,6 +28,12 @@ Theorem C18_ravel_length : forall (V : Type) nn ne (a : arr2 V),
 Proof. exact length_ravel_rect. Qed.
 Print Assumptions C18_ravel_length.
 
+(** entry (i, j) of the transposed array is entry (j, i) *)
+Theorem C18_transpose_cell : forall (V : Type) nn ne (a : arr2 V) i j,
+  rect ne nn a = true -> 0 < ne -> i < nn -> cell (transpose a) i j = cell a j i.
+Proof. exact transpose_cell. Qed.
+Print Assumptions C18_transpose_cell.
+
 (** ** make_xarray_grid *)
 
 (** each value of the k-th data array is the value of the variable carrying
@@ -147,11 +153,13 @@ Print Assumptions C18_make_grid_rejects_shape_2d.
 
 (** ** grid_to_table *)
 
-(** for a grid (Dataset, named or unnamed DataArray) whose variables and
-    non-index coordinates are laid out along the first variable's dimensions
-    (d0, d1): columns d0, d1, the extra coordinates in the grid's coordinate
-    order, the variables; nn * ne rows; row k holds the coordinates, extra
-    coordinates and every variable of cell (k / ne, k mod ne) *)
+(** for a grid (Dataset, named or unnamed DataArray) over the dimensions
+    (d0, d1) of its first variable, whose variables and non-index coordinates
+    are each stored as (d0, d1) or as (d1, d0) ([aligned_grid]): columns d0,
+    d1, the extra coordinates in the grid's coordinate order, the variables;
+    nn * ne rows; row k holds the coordinates, and the value of every extra
+    coordinate and variable AT cell (k / ne, k mod ne) ([value_at] reads a
+    (d1, d0) variable transposed) *)
 Theorem C18_table_rows : forall (V : Type) (g : grid V) d0 d1 (north east : list V),
   aligned_grid g d0 d1 north east ->
   let nn := length north in
@@ -163,8 +171,8 @@ Theorem C18_table_rows : forall (V : Type) (g : grid V) d0 d1 (north east : list
     forall k, k < nn * ne ->
       table_row t k =
         nth_error north (k / ne) :: nth_error east (k mod ne)
-        :: map (fun p => coord_cell (snd p) (k / ne) (k mod ne)) extras
-        ++ map (fun p => cell (v_rows (snd p)) (k / ne) (k mod ne)) (grid_vars g).
+        :: map (fun p => coord_at d0 d1 (snd p) (k / ne) (k mod ne)) extras
+        ++ map (fun p => value_at d0 d1 (snd p) (k / ne) (k mod ne)) (grid_vars g).
 Proof. exact table_rows. Qed.
 Print Assumptions C18_table_rows.
 
@@ -310,11 +318,12 @@ Proof.
   split.
   { constructor; [cbn; intros [H|[]]; discriminate|]. constructor; [intros []|constructor]. }
   split.
-  { unfold aligned_grid. cbn. split; [eexists _, _, _; split; reflexivity|].
+  { unfold aligned_grid. cbn. split; [discriminate|].
+    split; [eexists _, _, _; split; reflexivity|].
     split; [reflexivity|]. split; [reflexivity|].
-    split; [repeat constructor|].
+    split; [repeat constructor; left; split; reflexivity|].
     repeat constructor; cbn; try discriminate.
-    intros _. eexists. repeat split. }
+    intros _. eexists. split; [reflexivity|]. left. split; reflexivity. }
   eexists. split; reflexivity.
 Qed.
 
@@ -335,14 +344,33 @@ Example C18_nv_meshgrid :
   meshgrid_to_1d Nat.eqb nv_E nv_N [nv_u] = Some ([1; 2; 4], [10; 30]).
 Proof. split; reflexivity. Qed.
 
-(** finding F6: the model of the current code on a Dataset whose second
-    variable is stored as (easting, northing).  Row 1 is the cell
-    (northing 10, easting 2), where b is 101, but the table holds 103 *)
-Example C18_F6_witness :
-  let g := GDataset (mk_ds [("easting", Idx [1; 2; 4]); ("northing", Idx [10; 30])]
+(** finding F6 (repaired): a Dataset whose second variable is stored as
+    (easting, northing).  Row 1 is the cell (northing 10, easting 2), where b
+    is 101.  The code before the repair ([grid_to_table_pinned]) put 103
+    there; the repaired code puts 101, as [C18_table_rows] demands *)
+Definition nv_mixed : grid nat :=
+  GDataset (mk_ds [("easting", Idx [1; 2; 4]); ("northing", Idx [10; 30]);
+                   ("upward", Aux (mk_var ("easting", "northing") [[1000; 1003]; [1001; 1004]; [1002; 1005]]))]
              [("a", mk_var ("northing", "easting") nv_a);
-              ("b", mk_var ("easting", "northing") [[100; 103]; [101; 104]; [102; 105]])]) in
-  exists t, grid_to_table g = Some t /\
-    table_row t 1 = [Some 10; Some 2; Some 1; Some 103] /\
+              ("b", mk_var ("easting", "northing") [[100; 103]; [101; 104]; [102; 105]])]).
+
+Example C18_F6_pinned_refuted :
+  exists t, grid_to_table_pinned nv_mixed = Some t /\
+    table_row t 1 = [Some 10; Some 2; Some 1003; Some 1; Some 103] /\
     value_at "northing" "easting" (mk_var ("easting", "northing") [[100; 103]; [101; 104]; [102; 105]]) 0 1 = Some 101.
 Proof. eexists. repeat split. Qed.
+
+Example C18_nv_mixed_dims :
+  aligned_grid nv_mixed "northing" "easting" [10; 30] [1; 2; 4] /\
+  exists t, grid_to_table nv_mixed = Some t /\
+    table_row t 1 = [Some 10; Some 2; Some 1001; Some 1; Some 101].
+Proof.
+  split; [|eexists; split; reflexivity].
+  unfold aligned_grid, nv_mixed. cbn. split; [discriminate|].
+  split; [eexists _, _, _; split; reflexivity|].
+  split; [reflexivity|]. split; [reflexivity|].
+  split.
+  - constructor; [left; split; reflexivity|]. constructor; [right; split; reflexivity|constructor].
+  - repeat constructor; cbn; try discriminate.
+    intros _. eexists. split; [reflexivity|]. right. split; reflexivity.
+Qed.
